@@ -49,9 +49,17 @@ func tagComparer() cmp.Option {
 func fontCmpOpts() []cmp.Option {
 	approx := cmpopts.EquateApprox(5e-9, 0)
 	isReal := func(p cmp.Path) bool {
-		s := p.GoString()
-		return strings.Contains(s, "FontMatrix") || strings.Contains(s, "FontMatrices") ||
-			strings.Contains(s, "BlueScale") || strings.Contains(s, "StdHW") || strings.Contains(s, "StdVW")
+		// nearest enclosing struct field (looking back over index steps)
+		for i := len(p) - 1; i >= 0 && i >= len(p)-4; i-- {
+			if sf, ok := p[i].(cmp.StructField); ok {
+				switch sf.Name() {
+				case "FontMatrix", "FontMatrices", "BlueScale", "StdHW", "StdVW":
+					return true
+				}
+				return false
+			}
+		}
+		return false
 	}
 	return []cmp.Option{
 		cmpopts.EquateEmpty(),
@@ -69,8 +77,11 @@ func diffFonts(a, b *sfnt.Font) (d string) {
 		}
 	}()
 	a, b = normWidths(a), normWidths(b)
-	if d := cmp.Diff(a, b, fontCmpOpts()...); d != "" {
-		return d
+	if !cmp.Equal(a, b, fontCmpOpts()...) {
+		if d := cmp.Diff(a, b, fontCmpOpts()...); d != "" {
+			return d
+		}
+		return "fonts differ (no printable difference)"
 	}
 	oa, okA := a.Outlines.(*cff.Outlines)
 	ob, okB := b.Outlines.(*cff.Outlines)
@@ -353,7 +364,7 @@ func c01opts(k *mon.Case) fontgen.Opts {
 
 func runC01(c *mon.Ctx) {
 	childOut := os.Getenv("C01_CHILD_HASH")
-	c.Stratum("constructed", c.N(360, 9000), func(k *mon.Case) {
+	c.Stratum("constructed", c.N(1200, 12000), func(k *mon.Case) {
 		o := c01opts(k)
 		f, info := fontgen.Font(k.Rng, o)
 		if f.CreationTime.IsZero() && f.ModificationTime.IsZero() {
@@ -451,7 +462,7 @@ func runC01(c *mon.Ctx) {
 
 	// bytes stratum: corpus files and mutants the reader accepts
 	corpus := corpusFiles(c)
-	c.Stratum("bytes", c.N(150, 3000), func(k *mon.Case) {
+	c.Stratum("bytes", c.N(500, 6000), func(k *mon.Case) {
 		r := k.Rng
 		var b []byte
 		var label string
